@@ -23,4 +23,8 @@ instance : Scalar Rat where
   parse _ := none
   print _ := []
 
+instance : Cvt Rat Rat where
+  up a := a
+  down a := a
+
 end Rosu.ToyRat
